@@ -15,6 +15,7 @@ package checks
 // Disconnect, Connect, Echo, Close); every probe must return.
 
 import (
+	"os"
 	"context"
 	"fmt"
 	"reflect"
@@ -61,7 +62,8 @@ func c18Schema(extra bool) *tspace.Schema {
 			{Name: "d", Key: str, Val: &sv, Min: 0, Max: -1},
 		}}
 	}
-	s := &tspace.Schema{Name: "VDB", Tables: []*tspace.Table{mk("T"), mk("U")}}
+	// U is used by the probes, U0..U5 by the stress workers: one monitor per table at most
+	s := &tspace.Schema{Name: "VDB", Tables: []*tspace.Table{mk("T"), mk("U"), mk("U0"), mk("U1"), mk("U2"), mk("U3"), mk("U4"), mk("U5")}}
 	if extra {
 		s.Tables = append(s.Tables, mk("Extra"))
 	}
@@ -123,10 +125,11 @@ func c18InstallHook() {
 // ---- event handler checking models handed to handlers ----------------------
 
 type c18handler struct {
-	m    *dyn.Model
-	mu   sync.Mutex
-	torn []string
-	n    int64
+	m     *dyn.Model
+	mu    sync.Mutex
+	torn  []string
+	n     int64
+	trace func(kind, table string, mdl model.Model) // optional, debugging
 }
 
 func (h *c18handler) check(table string, mdl model.Model) {
@@ -137,12 +140,25 @@ func (h *c18handler) check(table string, mdl model.Model) {
 		h.mu.Unlock()
 	}
 }
-func (h *c18handler) OnAdd(table string, mdl model.Model) { h.check(table, mdl) }
+func (h *c18handler) OnAdd(table string, mdl model.Model) {
+	h.check(table, mdl)
+	if h.trace != nil {
+		h.trace("add", table, mdl)
+	}
+}
 func (h *c18handler) OnUpdate(table string, old, new model.Model) {
 	h.check(table, old)
 	h.check(table, new)
+	if h.trace != nil {
+		h.trace("update", table, new)
+	}
 }
-func (h *c18handler) OnDelete(table string, mdl model.Model) { h.check(table, mdl) }
+func (h *c18handler) OnDelete(table string, mdl model.Model) {
+	h.check(table, mdl)
+	if h.trace != nil {
+		h.trace("delete", table, mdl)
+	}
+}
 
 var _ cache.EventHandler = (*c18handler)(nil)
 
@@ -228,10 +244,11 @@ func allStacks() string {
 	return out
 }
 
-// blockedFrame names the libovsdb function a stuck call is parked in.
+// blockedFrame names the libovsdb function most of the stuck harness calls are parked in.
 func blockedFrame(stacks, call string) string {
+	count := map[string]int{}
 	for _, g := range strings.Split(stacks, "\n\n") {
-		if !strings.Contains(g, "c18") {
+		if !strings.Contains(g, "checks.c18") {
 			continue
 		}
 		for _, ln := range strings.Split(g, "\n") {
@@ -240,11 +257,18 @@ func blockedFrame(stacks, call string) string {
 				if i := strings.LastIndex(f, "("); i > 0 {
 					f = f[:i]
 				}
-				return f
+				count[f]++
+				break
 			}
 		}
 	}
-	return "unknown"
+	best, n := "unknown", 0
+	for f, c := range count {
+		if c > n || (c == n && f < best) {
+			best, n = f, c
+		}
+	}
+	return best
 }
 
 // ---- (A) stress ----------------------------------------------------------------
@@ -275,6 +299,39 @@ func c18Stress(r *ev.Run, m *dyn.Model, p *prng.R, batch, si int) {
 	}
 	h := &c18handler{m: m}
 	cl.Cache().AddEventHandler(h)
+	var tlf func(format string, a ...interface{})
+	if os.Getenv("VERIF_C18_TRACE") != "" {
+		h.trace = func(kind, table string, mdl model.Model) {
+			if table != "T" {
+				return
+			}
+			_, row, _ := m.RowOf(table, mdl)
+			if datumStr(row["name"]) != "r1" {
+				return
+			}
+			if kind == "update" && row["c"].Len() == 1 && datumInt(row["a"])%20 != 0 {
+				return
+			}
+			tlf("event %s r1 a=%d c=%s", kind, datumInt(row["a"]), row["c"])
+		}
+	}
+	seenCaches := map[*cache.TableCache]bool{cl.Cache(): true}
+	var seenMu sync.Mutex
+	attach := func() {
+		tc := cl.Cache()
+		if tc == nil {
+			return
+		}
+		seenMu.Lock()
+		if !seenCaches[tc] {
+			seenCaches[tc] = true
+			tc.AddEventHandler(h)
+			if tlf != nil {
+				tlf("handler attached to new cache %p", tc)
+			}
+		}
+		seenMu.Unlock()
+	}
 
 	c18HookMu.Lock()
 	c18HookRng = prng.Derive(int64(p.U64()>>1), "c18hook")
@@ -296,10 +353,26 @@ func c18Stress(r *ev.Run, m *dyn.Model, p *prng.R, batch, si int) {
 	var torn []string
 	var monitors int64
 	var cookies []client.MonitorCookie
+	t0 := time.Now()
+	var timeline []string
+	tl := func(format string, a ...interface{}) {
+		mu.Lock()
+		if len(timeline) < 1500 {
+			timeline = append(timeline, fmt.Sprintf("%7.1fms ", float64(time.Since(t0).Microseconds())/1000)+fmt.Sprintf(format, a...))
+		}
+		mu.Unlock()
+	}
+	tlf = tl
 	note := func(call string, err error) {
 		cls := "ok"
 		if err != nil {
 			cls = errClassOf(err.Error())
+		}
+		if strings.HasPrefix(call, "Connect") && os.Getenv("VERIF_C18_TRACE") != "" {
+			attach()
+		}
+		if strings.HasPrefix(call, "Disconnect") || strings.HasPrefix(call, "Connect") || strings.HasPrefix(call, "Monitor") {
+			tl("%s returned %s", call, cls)
 		}
 		mu.Lock()
 		outcomes[call+": "+cls]++
@@ -309,8 +382,12 @@ func c18Stress(r *ev.Run, m *dyn.Model, p *prng.R, batch, si int) {
 		for _, md := range mdls {
 			if t := c18Torn(m, table, md); t != "" {
 				mu.Lock()
+				first := len(torn) == 0
 				torn = append(torn, path+": "+t)
 				mu.Unlock()
+				if first {
+					tl("FIRST TORN ROW %s: %s (cache %p)", path, t, cl.Cache())
+				}
 			}
 		}
 	}
@@ -338,7 +415,15 @@ func c18Stress(r *ev.Run, m *dyn.Model, p *prng.R, batch, si int) {
 					w.cur.Store("")
 					note(name, err)
 				}
-				switch x := wp.Intn(100); {
+				x := wp.Intn(100)
+				if dbg := os.Getenv("VERIF_C18_SKIP"); dbg != "" {
+					// debugging aid: disable groups of calls (d=Disconnect/Connect, m=Monitor*, t=Transact, o=options/endpoints)
+					if (strings.Contains(dbg, "d") && x >= 86 && x < 93) || (strings.Contains(dbg, "m") && x >= 70 && x < 80) ||
+						(strings.Contains(dbg, "t") && x >= 54 && x < 70) || (strings.Contains(dbg, "o") && x >= 96) {
+						x = 0
+					}
+				}
+				switch {
 				case x < 10:
 					do("Get(uuid)", func() error {
 						md := m.NewModel("T", e.uuids[wp.Intn(len(e.uuids))], nil)
@@ -480,11 +565,14 @@ func c18Stress(r *ev.Run, m *dyn.Model, p *prng.R, batch, si int) {
 						return err
 					})
 				case x < 74:
-					do("Monitor(U)", func() error {
-						if atomic.AddInt64(&monitors, 1) > 5 {
+					do("Monitor(Ui)", func() error {
+						k := atomic.AddInt64(&monitors, 1)
+						if k > 6 {
 							return nil
 						}
-						ck, err := cl.Monitor(ctx, cl.NewMonitor(client.WithTable(m.NewModel("U", "", nil))))
+						// a table of its own: two monitors on one table would deliver every change twice
+						tn := fmt.Sprintf("U%d", k-1)
+						ck, err := cl.Monitor(ctx, cl.NewMonitor(client.WithTable(m.NewModel(tn, "", nil))))
 						if err == nil {
 							mu.Lock()
 							cookies = append(cookies, ck)
@@ -578,6 +666,7 @@ func c18Stress(r *ev.Run, m *dyn.Model, p *prng.R, batch, si int) {
 				e.px.Refuse(1 + cp.Intn(2))
 			}
 			e.px.CutAll()
+			tl("proxy cut all connections")
 			cuts++
 		}
 	}(prng.Derive(int64(p.U64()>>1), "c18chaos"))
@@ -588,7 +677,7 @@ func c18Stress(r *ev.Run, m *dyn.Model, p *prng.R, batch, si int) {
 	blocked := false
 	select {
 	case <-workersDone:
-	case <-time.After(4 * time.Minute):
+	case <-time.After(2 * time.Minute):
 		// workers issue at most `calls` calls of <= 3 s each; stop the rest of the load and grant the quiet period
 		close(stopChaos)
 		<-chaosDone
@@ -619,7 +708,7 @@ func c18Stress(r *ev.Run, m *dyn.Model, p *prng.R, batch, si int) {
 		if len(stuck) > 0 {
 			call = strings.SplitN(stuck[0], ": ", 2)[1]
 		}
-		r.Violation(fmt.Sprintf("C18/blocked-forever/stress/%s@%s", call, blockedFrame(stacks, call)), fmt.Sprintf("%d calls never returned although every call had a context deadline and all load stopped 60 s ago: %s", len(stuck), strings.Join(stuck, "; ")),
+		r.Violation(fmt.Sprintf("C18/blocked-forever/stress@%s", blockedFrame(stacks, call)), fmt.Sprintf("%d calls never returned although every call had a context deadline and all load stopped 60 s ago: %s", len(stuck), strings.Join(stuck, "; ")),
 			map[string]interface{}{"scenario": tag, "stuck": stuck, "goroutines_in_libovsdb": stacks})
 		return
 	}
@@ -633,7 +722,7 @@ func c18Stress(r *ev.Run, m *dyn.Model, p *prng.R, batch, si int) {
 	}
 	if len(torn) > 0 {
 		path := strings.SplitN(torn[0], ":", 2)[0]
-		r.Violation("C18/torn-row/"+path, fmt.Sprintf("%d models mixed two versions of a row, e.g. %s", len(torn), torn[0]), map[string]interface{}{"scenario": tag, "examples": torn[:minInt(len(torn), 10)]})
+		r.Violation("C18/torn-row/"+path, fmt.Sprintf("%d models mixed two versions of a row, e.g. %s", len(torn), torn[0]), map[string]interface{}{"scenario": tag, "examples": torn[:minInt(len(torn), 10)], "timeline": timeline, "proxy_log_tail": tailStr(e.px.Log, 60)})
 	}
 	// after the storm: the client must be usable again and converge
 	final := func() string {
@@ -661,26 +750,39 @@ func c18Stress(r *ev.Run, m *dyn.Model, p *prng.R, batch, si int) {
 		r.Violation("C18/blocked-forever/after-stress/Connect@"+blockedFrame(stacks, "Connect"), "Connect after the stress scenario never returned", map[string]interface{}{"scenario": tag, "goroutines_in_libovsdb": stacks})
 		return
 	}
-	// the T monitor must still be live (re-established by reconnects): converge on T
-	wire, _ := m.WireOps([]ref.Op{{Kind: "insert", Table: "T", UUID: p.UUID(), Row: c18Row("barrier", 1)}})
-	_, _ = e.writer.Transact(m.S.Name, wire)
-	post, _ := m.Snapshot(e.srv.DB)
-	monitored := map[string]map[string]bool{"T": {"name": true, "a": true, "b": true, "c": true, "d": true}}
-	d := ""
-	for i := 0; i < 1500; i++ {
-		if d = cacheDiff(m, cl, post, monitored); d == "" {
-			break
+	// Disconnect on a reconnecting client keeps the monitors, so the monitor on T
+	// set up at the start must still be (or become again) live: the cache converges
+	conv := func() string {
+		wire, _ := m.WireOps([]ref.Op{{Kind: "insert", Table: "T", UUID: p.UUID(), Row: c18Row("barrier", 1)}})
+		_, _ = e.writer.Transact(m.S.Name, wire)
+		post, _ := m.Snapshot(e.srv.DB)
+		monitored := map[string]map[string]bool{"T": {"name": true, "a": true, "b": true, "c": true, "d": true}}
+		d := ""
+		for i := 0; i < 2000; i++ {
+			if d = cacheDiff(m, cl, post, monitored); d == "" {
+				return ""
+			}
+			time.Sleep(10 * time.Millisecond)
+			if i%300 == 299 {
+				// nudge: a notification makes a stale connection visible to the client
+				wire, _ := m.WireOps([]ref.Op{{Kind: "insert", Table: "T", UUID: p.UUID(), Row: c18Row(fmt.Sprintf("barrier%d", i), 1)}})
+				_, _ = e.writer.Transact(m.S.Name, wire)
+				post, _ = m.Snapshot(e.srv.DB)
+			}
 		}
-		time.Sleep(10 * time.Millisecond)
-		if i%200 == 199 {
-			// a Disconnect issued by a worker drops the monitors for good only if no Connect followed; nudge again
-			wire, _ := m.WireOps([]ref.Op{{Kind: "insert", Table: "T", UUID: p.UUID(), Row: c18Row(fmt.Sprintf("barrier%d", i), 1)}})
-			_, _ = e.writer.Transact(m.S.Name, wire)
-			post, _ = m.Snapshot(e.srv.DB)
-		}
+		return d
 	}
-	if d != "" {
-		r.Violation("C18/cache-does-not-converge-after-stress/"+cacheDiffClass(d), "after the stress scenario the cache no longer follows the database: "+d, map[string]interface{}{"scenario": tag, "proxy_log_tail": tailStr(e.px.Log, 30)})
+	convDone := make(chan string, 1)
+	go func() { convDone <- conv() }()
+	select {
+	case d := <-convDone:
+		if d != "" {
+			r.Violation("C18/cache-does-not-converge-after-stress/"+cacheDiffClass(d), "20 s after the stress scenario ended (client connected, nothing else running) the cache still differs from the database on the table monitored from the start: "+d, map[string]interface{}{"scenario": tag, "timeline": timeline, "proxy_log_tail": tailStr(e.px.Log, 40)})
+		}
+	case <-time.After(180 * time.Second):
+		stacks := allStacks()
+		r.Violation("C18/blocked-forever/after-stress/cache-read@"+blockedFrame(stacks, "cacheDiff"), "reading the cache after the stress scenario never returned", map[string]interface{}{"scenario": tag, "goroutines_in_libovsdb": stacks})
+		return
 	}
 	closeDone := make(chan struct{})
 	go func() { cl.Close(); close(closeDone) }()
@@ -840,6 +942,21 @@ func c18Paths(m *dyn.Model) []c18path {
 		}},
 		{"Get/not-connected", false, false, func(e *c18env, ctx context.Context) error {
 			return e.cl.Get(ctx, m.NewModel("T", e.uuids[0], nil))
+		}},
+		{"Where/not-connected", false, false, func(e *c18env, ctx context.Context) error {
+			res := reflect.New(reflect.SliceOf(tT))
+			if err := e.cl.Where(m.NewModel("T", e.uuids[0], nil)).List(ctx, res.Interface()); err == nil {
+				return nil
+			}
+			if _, err := e.cl.WhereAll(m.NewModel("T", "", nil)).Delete(); err == nil {
+				return nil
+			}
+			_, _ = e.cl.WhereAny(m.NewModel("T", "", nil)).Delete()
+			return e.cl.WhereCache(func(a int) bool { return true }).List(ctx, res.Interface())
+		}},
+		{"Create/not-connected", false, false, func(e *c18env, ctx context.Context) error {
+			_, err := e.cl.Create(m.NewModel("T", "", c18Row("x", 1)))
+			return err
 		}},
 		{"List/nil-result", true, false, func(e *c18env, ctx context.Context) error { return e.cl.List(ctx, nil) }},
 		{"List/non-slice", true, false, func(e *c18env, ctx context.Context) error {
@@ -1067,6 +1184,9 @@ func c18Child(r *ev.Run, batch int) {
 	c18InstallHook()
 	nb := r.N(8, 64)
 	paths := c18Paths(m)
+	if os.Getenv("VERIF_C18_NOPATHS") != "" {
+		paths = nil
+	}
 	for pi, pa := range paths {
 		// quick: every path once; thorough: every path with and without reconnect
 		if r.Quick() {
